@@ -62,6 +62,9 @@ class MultipleOf(Validator):
     def _validate(self, value: Any):
         multiple_of = self.params["multipleOf"]
         try:
+            if isinstance(value, int) and abs(value) >= 2 ** 53:
+                # Beyond the integers a float represents exactly.
+                raise OverflowError
             if isinstance(multiple_of, float):
                 quotient = value / multiple_of
                 failed = int(quotient) != quotient
